@@ -87,6 +87,11 @@ pub fn shard(ctx: &Ctx, spec: &Spec) -> Shard {
     while n < max_random && ctx.time_left() {
         let mut cfg = random_cfg(&mut rng, spec.profile.n_keys, spec.profile.n_meta, spec.dup);
         (spec.tweak_cfg)(&mut cfg, &mut rng);
+        // one history in sixteen runs under pearl's default bloom configuration (filters of several hundred KiB:
+        // the filter section dominates the index file and every offset behind it is large)
+        if cfg.bloom != 0 && rng.chance(1, 16) {
+            cfg.bloom = 2;
+        }
         // a quarter of the histories: small record limit, the background worker rotates the active blob by itself
         if rng.chance(1, 4) {
             if rng.chance(1, 2) {
@@ -142,6 +147,12 @@ pub fn shard(ctx: &Ctx, spec: &Spec) -> Shard {
         sh.add(&format!("histories_keylen_{}", cfg.keylen), 1);
         sh.add(if cfg.mt { "histories_multi_thread" } else { "histories_current_thread" }, 1);
         sh.add(if cfg.bloom > 0 { "histories_bloom_on" } else { "histories_bloom_off" }, 1);
+        if cfg.bloom == 2 {
+            sh.add("histories_pearl_default_bloom_config", 1);
+        }
+        if cfg.dump_permits.is_some() {
+            sh.add("histories_concurrent_blob_loading_at_init", 1);
+        }
         sh.add(if cfg.allow_dup { "histories_dup_allowed" } else { "histories_dup_disallowed" }, 1);
         judge(&mut sh, ctx, spec.property, &spec.owned, &out, replay_json(spec.check_name, &cfg, hid, &ops, spec.surface));
     }
